@@ -65,8 +65,14 @@ def _cases(ctx, nl):
     hist = {'lenses': 0, 'mirrors': 0, 'finite_object': 0, 'stop_first': 0, 'stop_last': 0, 'aperture': {}, 'field': {}}
     for li in range(nl):
         spec = lensgen.gen_spec(rng, allow=['plane', 'standard', 'conic', 'even_asphere'], decenter=False)
+        edits = []
         try:
             o = lensgen.build(spec)
+            if li % 3 == 1:
+                # query, edit through the public setters, query again: stale caches / missed updates show up here
+                paraxcorr.impl_queries(o)
+                edits = lensgen.random_edits(o, spec, rng)
+                hist['edited'] = hist.get('edited', 0) + 1
             ps = paraxcorr.psurfs(o)
             impl = paraxcorr.impl_queries(o)
         except Exception as e:   # noqa
@@ -81,7 +87,7 @@ def _cases(ctx, nl):
         hist['stop_last'] += int(st == len(spec['surfaces']) - 1)
         hist['aperture'][spec['aperture'][0]] = hist['aperture'].get(spec['aperture'][0], 0) + 1
         hist['field'][spec['field_type']] = hist['field'].get(spec['field_type'], 0) + 1
-        cases.append(dict(ps=ps, spec=spec, impl=impl))
+        cases.append(dict(ps=ps, spec=spec, impl=impl, edits=edits))
     return cases, hist
 
 
@@ -106,7 +112,7 @@ def system_checks(ctx):
             res['nontrivial'] += 1
         bad = oracles.check_paraxial(c['ps'], c['spec'], c['impl'])
         if ci in fails or bad:
-            res['disagreements'].append({'spec': c['spec'], 'model_disagrees_on': fails.get(ci, []),
+            res['disagreements'].append({'spec': c['spec'], 'edits_after_first_query': c['edits'], 'model_disagrees_on': fails.get(ci, []),
                                          'oracle': bad[:5], 'violates_property': bool(bad)})
     if -1 in fails:
         res['disagreements'].append({'note': fails[-1], 'violates_property': False})
@@ -123,7 +129,7 @@ def search(ctx, broken, disagreements):
     for c in cases:
         bad = oracles.check_paraxial(c['ps'], c['spec'], c['impl'])
         if bad:
-            return {'spec': c['spec'], 'oracle': bad[:5], 'violates_property': True}
+            return {'spec': c['spec'], 'edits_after_first_query': c['edits'], 'oracle': bad[:5], 'violates_property': True}
     return None
 
 
